@@ -199,7 +199,7 @@ def report(mod, prop, tier, seed, units, results, extra, t0, origin, args):
                 elif rep is not None:
                     ri = rep(u, ob)
                 else:
-                    ri = {"reproduced": False, "note": "no native replay for unit kind %s" % u.kind}
+                    ri = engine.replay_custom(u, ob["model"])
             except Exception as e:     # noqa: BLE001
                 ri = {"reproduced": False, "note": "replay error %s: %s" % (type(e).__name__, e)}
             info["native_replay"] = ri
@@ -312,7 +312,7 @@ def replay_file(mod, path):
     elif hasattr(mod, "replay"):
         ri = mod.replay(u, {"name": info["obligation"], "model": info["solver_model"]})
     else:
-        ri = {"reproduced": False, "note": "no native replay for this unit"}
+        ri = engine.replay_custom(u, info["solver_model"])
     print(json.dumps(ri, indent=1, default=str))
     return 1 if ri.get("reproduced") else 0
 
